@@ -113,6 +113,11 @@ func c06Scenarios(tier string) []*Scenario {
 		o := overrun{delta: 0, place: "continuation", peerWin: pw}
 		ovs = append(ovs, o)
 	}
+	// exactly one window again after the application consumed 1 or 4 frames, the peer using its
+	// credit the moment it arrives (explored at the lock granularity of the receiver)
+	for _, k := range []int{1, 4} {
+		ovs = append(ovs, overrun{delta: 0, place: "continuation", consumed: k, peerWin: 65536})
+	}
 	// the overrun (or nothing, delta=0) arrives while the application is blocked in SendMsg
 	for _, d := range []int{0, 1, 3 * 65536} {
 		for _, p := range []string{"envelope", "continuation"} {
@@ -130,7 +135,7 @@ func c06Scenarios(tier string) []*Scenario {
 		scs = append(scs, &Scenario{
 			Name: "c06/raw-client/" + o.String(), Prop: "C06",
 			Desc: "scripted client opens streams 1 (Bidi, handler reads the first message only) and 2 (Bidi bystander) on a real flow-controlled server, fills stream 1's 64 KiB window and overruns it: " + o.String(),
-			Opt:  Options{Level: "io", Bound: bound},
+			Opt:  c06Opt(o, bound),
 			Run: func(w *World) {
 				h := grpctunnel.NewTunnelServiceHandler(grpctunnel.TunnelServiceHandlerOptions{})
 				h.RegisterService(&TestSvcDesc, &TestServer{W: w, Name: "fwd"})
@@ -165,6 +170,15 @@ func c06Scenarios(tier string) []*Scenario {
 				w.Vals["rc"] = rc
 				w.GoLow("fault:hangup", func() {
 					w.WaitUntil("hangup", func() bool { return true })
+					// did the peer give up only after it had said everything and the endpoint had
+					// digested it (last resort), or earlier (a deviation)?
+					digested := w.Vals["said-all"] != nil && w.RecvLoopsIdle()
+					for _, ms := range n.Streams {
+						if len(ms.c2s) > 0 {
+							digested = false
+						}
+					}
+					w.Vals["hangup-after-digest"] = digested
 					w.Vals["hangup"] = true
 				})
 				peer := w.GoPeer("rawclient", func() {
@@ -212,6 +226,7 @@ func c06Scenarios(tier string) []*Scenario {
 					m := msgBytes(2, 0, 0, 3)
 					_ = rc.Send(fReq(2, uint32(len(m)), m))
 					_ = rc.Send(fHalf(2))
+					w.Vals["said-all"] = true
 					w.WaitUntil("raw:settled", func() bool {
 						return (len(rc.CloseOf(1)) > 0 && len(rc.CloseOf(2)) > 0) || w.Vals["hangup"] != nil || rc.Done
 					})
@@ -245,8 +260,8 @@ func c06Scenarios(tier string) []*Scenario {
 					}
 					return vs
 				}
-				if len(cl1) == 0 && !hung {
-					bad("overrun-fails-that-rpc", "overrun:no-close", "the overrunning stream was never closed")
+				if len(cl1) == 0 && (!hung || w.Vals["hangup-after-digest"] == true) {
+					bad("overrun-fails-that-rpc", "overrun:no-close", "the overrunning stream was never closed (the peer gave up only when nothing else could happen)")
 				}
 				if len(cl1) == 1 && codes.Code(cl1[0].GetStatus().GetCode()) != codes.ResourceExhausted {
 					bad("overrun-fails-that-rpc", "overrun:wrong-code:"+codes.Code(cl1[0].GetStatus().GetCode()).String(), fmt.Sprintf("the overrunning stream was closed with %s(%s)", codes.Code(cl1[0].GetStatus().GetCode()), cl1[0].GetStatus().GetMessage()))
@@ -262,7 +277,7 @@ func c06Scenarios(tier string) []*Scenario {
 		scs = append(scs, &Scenario{
 			Name: "c06/raw-server/" + o.String(), Prop: "C06",
 			Desc: "real flow-controlled client runs Bidi RPC r1 (reads only the first message) and bystander r2 against a scripted server that fills r1's 64 KiB response window and overruns it: " + o.String(),
-			Opt:  Options{Level: "io", Bound: bound},
+			Opt:  c06Opt(o, bound),
 			Run: func(w *World) {
 				w.Invariants = append(w.Invariants, func() string {
 					wins, _ := w.ReceiverWindows()
@@ -277,6 +292,7 @@ func c06Scenarios(tier string) []*Scenario {
 					_ = c.Send(fSettings(-1, o.peerWin, 0, 1))
 					ids := map[string]int64{}
 					got := 0 // request data bytes of r1 seen so far
+					cancelled1 := false // the caller gave r1 up: no more credit will come
 					for len(ids) < 2 {
 						m, err := c.Recv()
 						if err != nil {
@@ -286,6 +302,7 @@ func c06Scenarios(tier string) []*Scenario {
 							ids[scriptOf(m.GetNewStream())] = m.StreamId
 						} else if id, ok := ids["r1"]; ok && m.StreamId == id {
 							got += dataLenC(m)
+							cancelled1 = cancelled1 || m.GetCancel() != nil
 						}
 					}
 					id1, id2 := ids["r1"], ids["r2"]
@@ -316,13 +333,14 @@ func c06Scenarios(tier string) []*Scenario {
 					}
 					if o.consumed > 0 {
 						credit := 0
-						for credit < o.consumed*protoChunk {
+						for credit < o.consumed*protoChunk && !cancelled1 {
 							m, err := c.Recv()
 							if err != nil {
 								return nil
 							}
 							if m.StreamId == id1 {
 								credit += int(m.GetWindowUpdate())
+								cancelled1 = cancelled1 || m.GetCancel() != nil
 							}
 						}
 					}
@@ -442,6 +460,15 @@ func c06Scenarios(tier string) []*Scenario {
 	scs = append(scs, monitorOnly("c06/union/", "C06", c05TunnelScenarios(tier))...)
 	scs = append(scs, monitorOnly("c06/union/", "C06", c01M2(tier))...)
 	return scs
+}
+
+// c06Opt: the exact-window controls after consumption run at the lock granularity of the
+// receiver with one more deviation; everything else at frame granularity.
+func c06Opt(o overrun, bound int) Options {
+	if o.delta == 0 && o.consumed > 0 {
+		return Options{Level: "focus", Focus: []string{"dequeue", "accept", "RecvMsg", "readMsg", "readMsgLocked"}, Bound: bound + 1}
+	}
+	return Options{Level: "io", Bound: bound}
 }
 
 // monitorOnly re-labels scenarios of another property for a run in which only the global
